@@ -47,7 +47,10 @@ def regenerate(cfg, sizes):
     # container plans (decision and arithmetic core of the struct-manipulating functions)
     efns, notes, enums = effects.translate_all(cfg, sizes)
     report["unsupported"] += ["translator_unsupported:" + n for n in notes]
-    write_if_changed(os.path.join(GEN, "Gen_effects.v"), effects.emit(efns, enums, cfg.get("conf")))
+    write_if_changed(os.path.join(GEN, "Gen_effects.v"), effects.emit(efns, enums, cfg.get("conf"), "containers"))
+    # ... and of the decoder glue (builder_callbacks.c, cbor_load)
+    write_if_changed(os.path.join(GEN, "Gen_effects_load.v"),
+                     effects.emit(efns, enums, cfg.get("conf"), "load", effects.load_enums(cfg)))
     report["effect_plans"] = sum(1 for _, t in efns if t is not None)
     # inventories
     inv, notes = inventory.scan(cfg)
